@@ -1,6 +1,8 @@
 import FqModel.Bitio
 import FqModel.C01Readers
+import FqModel.C01Spec
 import Proofs.C01Write64
+import Proofs.C01Ahead
 /-! C01 — copyBufBits and bitio.Buffer move bits unchanged; a trailing partial byte is zero filled. -/
 set_option linter.unusedSimpArgs false
 namespace Proofs.C01
@@ -90,5 +92,175 @@ theorem copyBufBits_spec (dst : List UInt8) (dstStart : Nat) (src : List UInt8) 
     simp only [hz', ne_eq, not_true_eq_false, and_false, if_false, pure_eq]
     refine ⟨d1, rfl, l1, ?_⟩
     rw [s1]; unfold padTo8; simp [hz']
+
+/-! ### slices of a spliced bit string -/
+
+theorem slice_splice_before (bits new : Bits) (off p k : Nat) (h : p + k ≤ off) (ho : off ≤ bits.length) :
+    slice (splice bits off new) p k = slice bits p k := by
+  simp only [splice, List.append_assoc]
+  rw [slice_take_left _ _ _ _ (by simp; omega)]
+  simp only [slice]
+  rw [List.drop_take, List.take_take]; congr 1; omega
+
+theorem slice_splice_at (bits A B : Bits) (off : Nat) (ho : off ≤ bits.length) :
+    slice (splice bits off (A ++ B)) off A.length = A := by
+  simp only [splice, slice]
+  have hl : (List.take off bits).length = off := by simp; omega
+  rw [List.append_assoc, List.drop_left' hl, List.append_assoc, List.take_left' rfl]
+
+theorem bytesToBits_replicate_zero (k : Nat) : bytesToBits (List.replicate k 0) = List.replicate (8 * k) false := by
+  induction k with
+  | zero => rfl
+  | succ k ih =>
+    rw [List.replicate_succ, bytesToBits_cons, ih, show 8 * (k + 1) = 8 + 8 * k by omega, ← List.replicate_append_replicate]
+    rfl
+
+theorem bitsByteCount_bounds (x : Nat) : x ≤ 8 * bitsByteCount x ∧ 8 * bitsByteCount x < x + 8 := by
+  unfold bitsByteCount; split <;> omega
+
+/-- Buffer.WriteBits appends the first n bits of p to the unread bits -/
+theorem buffer_writeBits_spec (b : Buffer) (p : List UInt8) (n : Nat) (hwf : b.WF) (hn : n ≤ 8 * p.length) :
+    ∃ b', b.writeBits p n = ok b' ∧ b'.WF ∧ b'.content = b.content ++ slice (bytesToBits p) 0 n ∧
+      b'.bitsOff = b.bitsOff := by
+  unfold Buffer.writeBits
+  obtain ⟨hw1, hw2⟩ := hwf
+  have hbb := bitsByteCount_bounds (b.bufBits + n)
+  simp only []
+  generalize hB : (if bitsByteCount (b.bufBits + n) > b.buf.length then
+      b.buf ++ List.replicate (bitsByteCount (b.bufBits + n) - b.buf.length) 0 else b.buf) = buf1
+  have hB1 : ∃ Z, buf1 = b.buf ++ Z ∧ bitsByteCount (b.bufBits + n) ≤ buf1.length := by
+    rw [← hB]; split
+    · exact ⟨_, rfl, by simp; omega⟩
+    · exact ⟨[], by simp, by omega⟩
+  obtain ⟨Z, hZ, hlen1⟩ := hB1
+  obtain ⟨d1, e1, l1, s1⟩ := copyBufBits_spec buf1 b.bufBits p 0 n (by omega) (by omega)
+  rw [e1]
+  simp only [ok_bind, pure_eq]
+  have hpl : (slice (bytesToBits p) 0 n).length = n := slice_length _ _ _ (by rw [bytesToBits_length]; omega)
+  have hb1 : b.bufBits ≤ (bytesToBits buf1).length := by rw [bytesToBits_length]; omega
+  refine ⟨_, rfl, ⟨by simp only; omega, by simp only; omega⟩, ?_, rfl⟩
+  simp only [Buffer.content]
+  rw [show b.bufBits + n - b.bitsOff = (b.bufBits - b.bitsOff) + n by omega, slice_add, s1,
+    slice_splice_before _ _ _ _ _ (by omega) hb1, show b.bitsOff + (b.bufBits - b.bitsOff) = b.bufBits by omega]
+  congr 1
+  · rw [hZ, bytesToBits_append, slice_take_left _ _ _ _ (by rw [bytesToBits_length]; omega)]
+  · have := slice_splice_at (bytesToBits buf1) (slice (bytesToBits p) 0 n) (List.replicate (padTo8 (b.bufBits + n)) false)
+      b.bufBits hb1
+    rwa [hpl] at this
+
+theorem content_length (b : Buffer) (hwf : b.WF) : b.content.length = b.bufBits - b.bitsOff := by
+  unfold Buffer.content
+  exact slice_length _ _ _ (by rw [bytesToBits_length]; have := hwf.1; have := hwf.2; omega)
+
+theorem pad_total (c : Nat) : c + padTo8 c = 8 * bitsByteCount c := by
+  unfold padTo8 bitsByteCount; split <;> omega
+
+theorem take_slice {α} (l : List α) (p m c : Nat) (h : c ≤ m) : (slice l p m).take c = slice l p c := by
+  simp only [slice]; rw [List.take_take]; congr 1; omega
+
+theorem drop_slice {α} (l : List α) (p m c : Nat) : (slice l p m).drop c = slice l (p + c) (m - c) := by
+  simp only [slice]; rw [List.drop_take, List.drop_drop]
+
+/-- Buffer.ReadBits on a non-empty buffer: the first min(k, len) unread bits, zero padded to a byte -/
+theorem buffer_readBits_spec (b : Buffer) (k : Nat) (hwf : b.WF) (hne : b.bitsOff < b.bufBits) :
+    ∃ b' p, b.readBits k = ok (b', p, min k b.content.length, none) ∧ b'.WF ∧
+      b'.content = b.content.drop (min k b.content.length) ∧ p.length = bitsByteCount (min k b.content.length) ∧
+      bytesToBits p = b.content.take (min k b.content.length) ++ List.replicate (padTo8 (min k b.content.length)) false := by
+  unfold Buffer.readBits
+  have hcl := content_length b hwf
+  obtain ⟨hw1, hw2⟩ := hwf
+  simp only [show ¬ b.bufBits ≤ b.bitsOff by omega, if_false, Buffer.len]
+  rw [← hcl]
+  generalize hc : min k b.content.length = c
+  have hcle : c ≤ b.content.length := by omega
+  obtain ⟨p, e1, l1, s1⟩ := copyBufBits_spec (List.replicate (bitsByteCount c) 0) 0 b.buf b.bitsOff c (by omega)
+    (by simp; have := bitsByteCount_bounds c; omega)
+  rw [e1]
+  simp only [ok_bind, pure_eq]
+  refine ⟨_, p, rfl, ⟨by simp only; omega, by simp only; omega⟩, ?_, by simpa using l1, ?_⟩
+  · simp only [Buffer.content]
+    rw [drop_slice]; congr 1; omega
+  · rw [s1, bytesToBits_replicate_zero, Nat.zero_add]
+    have hsl : (slice (bytesToBits b.buf) b.bitsOff c).length = c :=
+      slice_length _ _ _ (by rw [bytesToBits_length]; omega)
+    have hnl : (slice (bytesToBits b.buf) b.bitsOff c ++ List.replicate (padTo8 c) false).length = 8 * bitsByteCount c := by
+      rw [List.length_append, hsl, List.length_replicate, pad_total]
+    simp only [splice, List.take_zero, List.nil_append, Nat.zero_add, hnl]
+    rw [List.drop_eq_nil_of_le (by simp), List.append_nil]
+    congr 1
+    unfold Buffer.content
+    rw [take_slice _ _ _ _ (by omega)]
+
+/-! ### packing bits into bytes -/
+
+theorem len_ge8 {α} (l : List α) (h : 8 ≤ l.length) :
+    ∃ b0 b1 b2 b3 b4 b5 b6 b7 rest, l = b0 :: b1 :: b2 :: b3 :: b4 :: b5 :: b6 :: b7 :: rest := by
+  match l, h with
+  | b0 :: b1 :: b2 :: b3 :: b4 :: b5 :: b6 :: b7 :: rest, _ => exact ⟨b0, b1, b2, b3, b4, b5, b6, b7, rest, rfl⟩
+
+theorem byteToBits_of_bits (l : Bits) (h : l.length = 8) : byteToBits (UInt8.ofNat (ofBitsBE l)) = l := by
+  rw [byteToBits_ofNat]
+  have := toBitsBE_ofBitsBE l
+  rwa [h] at this
+
+/-- packR pads with zero bits up to the byte boundary and otherwise reproduces the bits -/
+theorem bytesToBits_packR (X : Bits) : bytesToBits (packR X) = X ++ List.replicate (padTo8 X.length) false := by
+  fun_induction packR X with
+  | case1 b0 b1 b2 b3 b4 b5 b6 b7 rest ih =>
+    rw [bytesToBits_cons, ih, byteToBits_of_bits _ rfl]
+    have : padTo8 (b0 :: b1 :: b2 :: b3 :: b4 :: b5 :: b6 :: b7 :: rest).length = padTo8 rest.length := by
+      unfold padTo8; simp only [List.length_cons]; omega
+    rw [this]; rfl
+  | case2 => rfl
+  | case3 bs h1 h2 =>
+    have hlt : bs.length < 8 := by
+      apply Nat.lt_of_not_le
+      intro h
+      obtain ⟨b0, b1, b2, b3, b4, b5, b6, b7, rest, hb⟩ := len_ge8 bs h
+      exact h1 _ _ _ _ _ _ _ _ _ hb
+    have hpos : 0 < bs.length := by
+      cases bs with
+      | nil => exact absurd rfl h2
+      | cons _ _ => simp
+    rw [bytesToBits_cons, bytesToBits_nil, List.append_nil, byteToBits_of_bits _ (by simp; omega)]
+    congr 2
+    unfold padTo8; omega
+
+theorem packR_length (X : Bits) : (packR X).length = bitsByteCount X.length := by
+  have := congrArg List.length (bytesToBits_packR X)
+  rw [bytesToBits_length, List.length_append, List.length_replicate, pad_total] at this
+  omega
+
+theorem byteToBits_inj (a b : UInt8) (h : byteToBits a = byteToBits b) : a = b := by
+  have ha := ofBitsBE_byteToBits a
+  have hb := ofBitsBE_byteToBits b
+  rw [h] at ha
+  exact UInt8.toNat_inj.mp (by omega)
+
+theorem bytesToBits_inj : ∀ (a b : List UInt8), bytesToBits a = bytesToBits b → a = b := by
+  intro a
+  induction a with
+  | nil =>
+    intro b h
+    cases b with
+    | nil => rfl
+    | cons y ys =>
+      have := congrArg List.length h
+      simp [bytesToBits_nil, bytesToBits_cons, byteToBits_length] at this
+      omega
+  | cons x xs ih =>
+    intro b h
+    cases b with
+    | nil =>
+      have := congrArg List.length h
+      simp [bytesToBits_nil, bytesToBits_cons, byteToBits_length] at this
+    | cons y ys =>
+      rw [bytesToBits_cons, bytesToBits_cons] at h
+      have := List.append_inj h (by rw [byteToBits_length, byteToBits_length])
+      rw [byteToBits_inj x y this.1, ih ys this.2]
+
+/-- a byte string whose bits are X followed by the zero padding is packR X -/
+theorem eq_packR (p : List UInt8) (X : Bits) (h : bytesToBits p = X ++ List.replicate (padTo8 X.length) false) :
+    p = packR X := bytesToBits_inj _ _ (by rw [h, bytesToBits_packR])
 
 end Proofs.C01
